@@ -779,6 +779,17 @@ def xfail(repo: Repo, rep):
                 rep.violation("R-XFAIL", f, y.ast, f"the private state of an xfail test is not deactivated before the test runs (`{w[1]}.active = False` does not dominate the yield)", construct="active")
 
 
+def _undef_assumed(o, pname):
+    """True / False when the path assumes that the argument is / is not the `undefined` sentinel, else None"""
+    for t, v_ in o.p.assume:
+        if isinstance(t, tuple) and t[0] == "cmp" and t[2] == ("param", pname) and "undefined" in str(t[3]) and isinstance(v_, bool):
+            if t[1] in ("is", "=="):
+                return v_
+            if t[1] in ("is not", "!="):
+                return not v_
+    return None
+
+
 def inactive(repo: Repo, rep):
     rep.rule(
         "R-INACTIVE-PURE",
@@ -802,6 +813,10 @@ def inactive(repo: Repo, rep):
                 rep.violation("R-INACTIVE-PURE", f, f.node, f"with inline-snapshot inactive, snapshot() still records state ({stores[0][0]} {stores[0][1:3]})", construct="store")
             elif o.kind == "ret" and o.ret != ("param", pname):
                 rep.violation("R-INACTIVE-PURE", f, f.node, f"with inline-snapshot inactive, snapshot(x) returns {o.ret} instead of x itself", construct="return")
+            elif o.kind == "ret" and _undef_assumed(o, pname) is True:
+                rep.violation("R-INACTIVE-PURE", f, f.node, "with inline-snapshot inactive, an argument-less snapshot() returns the `undefined` sentinel instead of raising 'your snapshot is missing a value': the test continues with a placeholder object", construct="returns-undefined")
+            elif o.kind == "exc" and _undef_assumed(o, pname) is False:
+                rep.violation("R-INACTIVE-PURE", f, f.node, "with inline-snapshot inactive, snapshot(x) raises for a snapshot that HAS a value instead of returning x", construct="raises-for-value")
             else:
                 rep.ok("R-INACTIVE-PURE", f, f.node, f"inactive path: {o.kind} {o.ret if o.kind == 'ret' else 'raises'}")
     rep.floor("R-INACTIVE-PURE", "inactive paths", seen_inactive, 2)
